@@ -11,7 +11,7 @@ Reads (source text, nothing is compiled):
 and writes lean/OrdModel/Generated/PanicSites.lean:
 
     def Ord.Index.PanicSites.sites : List (String × String × String × String)
-      -- (file, function, kind, whitespace-normalised source line), in source order
+      -- (file, function, kind, whitespace-normalised source line with local names replaced by `_`), in source order
 
 `Theorems/C16.lean` proves `PanicSites.sites = PanicSitesExpected.expected`, where the expected list
 (committed, hand-annotated: every entry names the model `panic` branch it corresponds to, or the
@@ -167,8 +167,33 @@ def fn_body_span(text, name, path):
     return brace, balanced(text, brace, "{", "}")
 
 
+KEEP = set("""as break const continue crate else enum false fn for if impl in let loop match mod move mut pub ref
+return self Self static struct super trait true type unsafe use where while async await dyn
+u8 u16 u32 u64 u128 usize i8 i16 i32 i64 i128 isize f32 f64 bool char str
+Some None Ok Err""".split())
+
+
+def skeleton(line):
+    """identifier-insensitive form of a source line: a LOCAL name (an identifier that is not a keyword
+    or primitive type, does not start with an upper-case letter, is not a field/method/path segment
+    — i.e. not preceded by `.` or `::` — and is not called or used as a macro/path head — not
+    followed by `(`, `!` or `::`) becomes `_`.  Renaming a local variable or a closure parameter
+    therefore does not change the inventory; changing what is called, which field is touched,
+    which operator is used or how many sites a line has does."""
+    def rep(m):
+        w, a, b = m.group(0), m.start(), m.end()
+        if w in KEEP or w[0].isupper() or w == "_":
+            return w
+        if line[max(0, a - 1):a] == "." or line[max(0, a - 2):a] == "::":
+            return w
+        if line[b:b + 1] in ("(", "!") or line[b:b + 2] == "::":
+            return w
+        return "_"
+    return re.sub(r"(?<![A-Za-z0-9_'])[A-Za-z_][A-Za-z0-9_]*", rep, line)
+
+
 def norm(line):
-    return re.sub(r"\s+", " ", line).strip()
+    return skeleton(re.sub(r"\s+", " ", line).strip())
 
 
 def lean_str(s):
